@@ -172,6 +172,59 @@
   (protect (ev/close rd)) (protect (ev/close wr))
   [(if wstuck :writer-blocked :ran) wres rres (t :total) (t :bad)])
 
+(defn run-duplex [item]
+  # one stream object with a parked reader AND a writer at the same time: the client's reader waits for the reply while
+  # the client's writer pushes a payload larger than the socket buffer; the server reads everything, then replies
+  (def [conn cli srv] (make-pair :unix (item :scratch)))
+  (def size (item :size))
+  (def data (payload 0 size))
+  (def done (ev/chan 4))
+  (var wres :pending) (var rres :pending) (var sres :pending)
+  (def t (new-tracker))
+  (def reply @"")
+  (ev/go (fn [] (set rres (try (do (while (def b (ev/read cli 64)) (buffer/push reply b)) :eof) ([e] [:error (string e)])))
+           (ev/give done :r)))
+  (ev/go (fn [] (ev/sleep 0)     # the reader is parked first
+           (set wres (try (do (ev/write cli data) :ok) ([e] [:error (string e)])))
+           (ev/give done :w)))
+  (ev/go (fn [] (set sres (try (do
+                                 (var left size)
+                                 (while (> left 0)
+                                   (def b (ev/read conn (min left 65536)))
+                                   (if (nil? b) (break))
+                                   (track t b)
+                                   (-= left (length b)))
+                                 (ev/write conn (string "done:" (t :total)))
+                                 (ev/close conn)
+                                 :ok) ([e] [:error (string e)])))
+           (ev/give done :s)))
+  (var got 0)
+  (def stuck (try (do (ev/with-deadline 1000 (repeat 3 (ev/take done) (++ got))) false) ([e] true)))
+  (protect (ev/close srv)) (protect (ev/close cli)) (protect (ev/close conn))
+  [(if stuck [:stuck got] :finished) wres rres sres (string reply) (t :total) (t :bad)])
+
+(defn run-shared [item]
+  # a child whose standard streams share one duplex stream (inetd arrangement and its variants)
+  (def [conn cli srv] (make-pair :unix (item :scratch)))
+  (def devnull-r (file/open "/dev/null" :r))
+  (def devnull-w (file/open "/dev/null" :w))
+  (def script "read line; echo \"out:$line\"; echo \"err:$line\" >&2; exit 7")
+  (def tab (case (item :share)
+             :in-out {:in conn :out conn :err devnull-w}
+             :in-err {:in conn :err conn :out devnull-w}
+             :out-err {:in devnull-r :out conn :err conn}
+             :all {:in conn :out conn :err conn}))
+  (unless (= :out-err (item :share))
+    (ev/write cli "ping\n"))     # queued on the connection before the child starts (nobody would read it in :out-err)
+  (def r (protect (os/proc-wait (os/spawn ["/bin/sh" "-c" script] :p tab))))
+  (ev/close conn)
+  (def out @"")
+  (def stuck (try (do (ev/with-deadline 1000 (while (def b (ev/read cli 4096)) (buffer/push out b))) false)
+                  ([e] (if (= e "deadline expired") true [:error (string e)]))))
+  (file/close devnull-r) (file/close devnull-w)
+  (protect (ev/close cli)) (protect (ev/close srv))
+  [(case stuck true :stuck false :finished stuck) (if (r 0) (r 1) [:error (string (r 1))]) (string out)])
+
 (defn run-signal [item]
   # a child that sleeps is killed with a signal: the wait result must report it
   (def p (os/spawn ["/bin/sleep" "100"] :p))
@@ -190,6 +243,8 @@
              :proc (run-proc item)
              :signal (run-signal item)
              :execute (run-execute item)
-             :queued (run-queued item)))
+             :queued (run-queued item)
+             :duplex (run-duplex item)
+             :shared (run-shared item)))
     (def c1 (verif/io-calls))
     (canon [r (- (c1 0) c0)])))
